@@ -57,6 +57,20 @@ fn name_elided_lifetimes(
         written: Vec<syn::Lifetime>,
         /// the lifetime parameters of the fn (a lifetime bound by a `for<'b>` is none of the inputs' lifetimes)
         params: Vec<syn::Ident>,
+        /// looking at the type of an input: an `impl Trait` there is a type parameter, its lifetimes are not the input's
+        in_input: bool,
+    }
+
+    impl Namer {
+        /// Only the type of an input has lifetimes that count (its pattern may contain types, too)
+        fn visit_input_type(&mut self, input: &mut syn::FnArg) {
+            self.in_input = true;
+            match input {
+                syn::FnArg::Typed(pat_type) => self.visit_type_mut(pat_type.ty.as_mut()),
+                syn::FnArg::Receiver(receiver) => self.visit_receiver_mut(receiver),
+            }
+            self.in_input = false;
+        }
     }
 
     impl VisitMut for Namer {
@@ -81,6 +95,12 @@ fn name_elided_lifetimes(
             }
         }
 
+        fn visit_type_impl_trait_mut(&mut self, impl_trait: &mut syn::TypeImplTrait) {
+            if !self.in_input {
+                syn::visit_mut::visit_type_impl_trait_mut(self, impl_trait);
+            }
+        }
+
         // `fn(&T) -> &U` and `Fn(&T) -> &U` have an elision scope of their own
         fn visit_type_bare_fn_mut(&mut self, _: &mut syn::TypeBareFn) {}
         fn visit_parenthesized_generic_arguments_mut(
@@ -102,6 +122,7 @@ fn name_elided_lifetimes(
             .lifetimes()
             .map(|param| param.lifetime.ident.clone())
             .collect(),
+        in_input: false,
     };
     let mut declared = declared;
 
@@ -111,11 +132,20 @@ fn name_elided_lifetimes(
         namer.visit_return_type_mut(&mut sig.output);
         let in_output = std::mem::take(&mut namer.found);
         namer.written.clear();
+        let mut elided_inputs = 0;
+        let mut written_inputs: Vec<syn::Lifetime> = vec![];
         for input in sig.inputs.iter_mut() {
-            namer.visit_fn_arg_mut(input);
+            namer.visit_input_type(input);
+            elided_inputs += std::mem::take(&mut namer.found);
+            // a lifetime that one input mentions twice (`&'a Foo<'a>`) is one lifetime of that input
+            let mut written_here: Vec<syn::Lifetime> = vec![];
+            for lifetime in std::mem::take(&mut namer.written) {
+                if !written_here.contains(&lifetime) {
+                    written_here.push(lifetime);
+                }
+            }
+            written_inputs.extend(written_here);
         }
-        let elided_inputs = std::mem::take(&mut namer.found);
-        let written_inputs = std::mem::take(&mut namer.written);
         if in_output == 0 || elided_inputs + written_inputs.len() != 1 {
             return None;
         }
@@ -128,7 +158,7 @@ fn name_elided_lifetimes(
             None => {
                 namer.rename = true;
                 for input in sig.inputs.iter_mut() {
-                    namer.visit_fn_arg_mut(input);
+                    namer.visit_input_type(input);
                 }
             }
         }
